@@ -242,7 +242,8 @@ fn gen_c07(tier: &str, rng: &mut Rng, emit: &mut dyn FnMut(Op)) {
     for v in 0..23 {
         for val in ["sha1 a4801e9b26eeb5b8bd1f54bac1c8e89dec67786a", "BLAKE2S abc", "Sha256 x", "md5 0", "SHA1", "rmd160  two  blanks",
             "mutt-[0-9]*:../../mail/mutt", "a>=1:../../c/d", "../../pkgtools/testpkg", "a/b/", "foo-[0-9", "gcc}-4.8", "old<1>0",
-            "foo-1.0.tgz", "\"quoted\"", "'q'", "IGNORE", "$NetBSD$", "007", "+5", "1e3", " lead", "trail ", "x\u{a0}"] {
+            "foo-1.0.tgz", "\"quoted\"", "'q'", "IGNORE", "$NetBSD$", "007", "+5", "1e3", " lead", "trail ", "x\u{a0}",
+            "/opt/pkg/lib//libfoo.so.1", "/usr/lib/./libc.so.12", "/opt/pkg/lib/foo/", "/", "//", "ends with backslash\\"] {
             match KINDS[v] {
                 0 => emit_ops(emit, &[call_set(v, &Val::S(val.into()))]),
                 2 => {
@@ -251,6 +252,16 @@ fn gen_c07(tier: &str, rng: &mut Rng, emit: &mut dyn FnMut(Op)) {
                 }
                 _ => {}
             }
+        }
+    }
+    // list lines that are patterns matching the entry's OWN name are lines like any other,
+    // whichever of PKGNAME and the list is set first
+    for lv in [3usize, 4, 22, 19, 20] {
+        for pat in ["foo-[0-9]*", "foo<2.1", "{foo,bar}-2.0", "foo-2.0", "foo>=2"] {
+            let name = call_set(15, &Val::S("foo-2.0".into()));
+            emit_ops(emit, &[name.clone(), call_push(lv, pat), call_push(lv, "other-[0-9]*")]);
+            emit_ops(emit, &[call_push(lv, pat), name.clone(), call_push(lv, pat)]);
+            emit_ops(emit, &[name.clone(), call_set(lv, &Val::A(vec![pat.into(), pat.into()]))]);
         }
     }
     // every variable alone, set and (for arrays) pushed: both name tables, all 23 rows
@@ -561,6 +572,13 @@ fn gen_c09(tier: &str, rng: &mut Rng, emit: &mut dyn FnMut(Op)) {
     for kib in ["1025", "2100", if thorough { "4500" } else { "1100" }] {
         emit(Op::s("stream.big", &[kib]));
     }
+    // repeated lines of a multi-line variable are all kept (the same library required twice), and
+    // a list line may be a pattern that matches the entry's own PKGNAME
+    {
+        let dup = "BUILD_DATE=d\nCATEGORIES=c\nCOMMENT=x\nCONFLICTS=foo-[0-9]*\nCONFLICTS=foo-[0-9]*\nDESCRIPTION=x\nDESCRIPTION=x\nMACHINE_ARCH=x\nOPSYS=x\nOS_VERSION=x\nPKGNAME=foo-2.0\nPKGPATH=a/b\nPKGTOOLS_VERSION=1\nPROVIDES=/lib/a.so\nPROVIDES=/lib/a.so\nREQUIRES=/lib/c.so\nREQUIRES=/lib/d.so\nREQUIRES=/lib/c.so\nSIZE_PKG=1\nSUPERSEDES=foo<2.1\nSUPERSEDES={foo,bar}-2.0\n\n";
+        let two = format!("{}{}", dup, dup);
+        partitions(rng, two.as_bytes(), false, emit);
+    }
     // a tiny hand-made stream with cuts inside é, €, 𐀀 and inside the separator
     let small = "BUILD_DATE=é\nCATEGORIES=€\nCOMMENT=𐀀\nDESCRIPTION=é\nMACHINE_ARCH=x\nOPSYS=x\nOS_VERSION=x\nPKGNAME=a-1\nPKGPATH=a/b\nPKGTOOLS_VERSION=1\nSIZE_PKG=1\n\n";
     let two = format!("{}{}", small, small);
@@ -594,6 +612,12 @@ fn gen_c09(tier: &str, rng: &mut Rng, emit: &mut dyn FnMut(Op)) {
             let pos = rng.range(0, e.len() - 1);
             e.insert(pos, 0xc3); // lead byte followed by ASCII: invalid
             e.push(b'\n');
+            e
+        }),
+        // a size that is not exactly a decimal integer: blanks around it, a bare sign
+        Box::new(|rng| {
+            let mut e = entry_text(rng, true).into_bytes();
+            e.extend(*rng.pick::<&[u8]>(&[b"FILE_SIZE= 1234\n\n", b"FILE_SIZE=1234 \n\n", b"FILE_SIZE=\t7\n\n", b"FILE_SIZE=-\n\n", b"FILE_SIZE=+\n\n", b"FILE_SIZE=1_000\n\n"]));
             e
         }),
         Box::new(|_| b"\n".to_vec()), // an empty record: "\n\n\n"
